@@ -13,6 +13,7 @@ mod rng;
 mod robs_map;
 mod robs_set;
 mod transport;
+mod watch;
 
 use std::io::Write;
 
@@ -132,6 +133,7 @@ fn main() {
         "robs_set" => robs_set::run(seed, count, &extra, &mut out),
         "broadcast" => broadcast::run(seed, count, &extra, &mut out),
         "io" => io::run(seed, count, &extra, &mut out),
+        "watch" => watch::run(seed, count, &extra, &mut out),
         _ => {
             eprintln!("unknown component {comp}");
             std::process::exit(2);
